@@ -39,6 +39,8 @@ STATUS_CODES = {
     "VARIANT_ALSO_NEGOTIATES": 506, "INSUFFICIENT_STORAGE": 507, "LOOP_DETECTED": 508, "NOT_EXTENDED": 510,
     "NETWORK_AUTHENTICATION_REQUIRED": 511,
 }
+WARP_KINDS = {"MethodNotAllowed": "WMethodNotAllowed", "LengthRequired": "WLengthRequired", "PayloadTooLarge": "WPayloadTooLarge",
+              "UnsupportedMediaType": "WUnsupportedMediaType"}
 CAP_NAMES = ["REGISTER_BODY_LEN", "ADD_APPOINTMENT_BODY_LEN", "GET_APPOINTMENT_BODY_LEN", "GET_SUBSCRIPTION_INFO_BODY_LEN"]
 # request field (as the handler / the internal API spells it, relative to the request message) -> constructor of HttpBase.hfield
 FIELDS = {
@@ -546,11 +548,36 @@ def handle_rejection(sq, errs):
     p.eat(";")
     m = p.rx(r"Ok\(reply::with_status\(reply::json\(&ApiError\{error,error_code\}\),StatusCode::([A-Z_]+),?\)\)\}")
     body_status = status_of(m.group(1), HTTP_RS, "handle_rejection")
-    m = p.rx(r"None=>matcherr\.find::<ApiError>\(\)\{Some\(x\)=>Ok\(reply::with_status\(reply::json\(x\),StatusCode::([A-Z_]+)\)\),None=>Err\(err\),\},?\}")
+    m = p.rx(r"None=>matcherr\.find::<ApiError>\(\)\{Some\(x\)=>Ok\(reply::with_status\(reply::json\(x\),StatusCode::([A-Z_]+)\)\),None=>")
     api_status = status_of(m.group(1), HTTP_RS, "handle_rejection")
+    # what is left: either handed back to warp at once, or first a chain of `if err.find::<warp::reject::K>().is_some() { json error } else`
+    warp_rows = []
+    if p.at("Err(err),"):
+        p.eat("Err(err),")
+    else:
+        p.eat("{")
+        while p.at("if"):
+            m = p.rx(r"iferr\.find::<warp::reject::([A-Za-z]+)>\(\)\.is_some\(\)\{Ok\(reply::with_status\(reply::json\(&ApiError\{"
+                     r'error:("(?:[^"\\]|\\.)*")\.to_owned\(\),error_code:errors::([A-Z_]+),?\}\),StatusCode::([A-Z_]+),?\)\)\}else')
+            kind, lit, err, st = m.groups()
+            rust_lit(lit, HTTP_RS)
+            if kind not in WARP_KINDS:
+                raise TranslateError(f"{HTTP_RS}: handle_rejection: warp rejection {kind} is not modelled")
+            if err not in errs:
+                raise TranslateError(f"{HTTP_RS}: handle_rejection: unknown error constant {err}")
+            if kind in [k for k, _s, _c in warp_rows]:
+                raise TranslateError(f"{HTTP_RS}: handle_rejection: warp rejection {kind} handled twice")
+            warp_rows.append((kind, status_of(st, HTTP_RS, "handle_rejection"), errs[err]))
+        p.eat("{Err(err)}}")
+        if p.at(","):
+            p.eat(",")
+    p.eat("}")
+    if p.at(","):
+        p.eat(",")
+    p.eat("}")
     if not p.done():
         raise TranslateError(f"{HTTP_RS}: handle_rejection: trailing text {p.s[p.i:p.i+60]!r}")
-    return rows, default, body_status, api_status
+    return rows, default, body_status, api_status, warp_rows
 
 
 # ------------------------------------------------------------------------------------------------
@@ -672,7 +699,7 @@ def gen():
             r["checks"] = []
     arms, dflt = match_status(sq, errs)
     ok_status = parse_grpc_response(sq)
-    rej_rows, rej_default, rej_body_status, rej_api_status = handle_rejection(sq, errs)
+    rej_rows, rej_default, rej_body_status, rej_api_status, rej_warp_rows = handle_rejection(sq, errs)
     internal, unavailable = internal_api(routes, req_types, consts)
     if "UNEXPECTED_ERROR" not in errs:
         raise TranslateError("teos-common/src/errors.rs: UNEXPECTED_ERROR not found")
@@ -725,5 +752,7 @@ def gen():
     L.append(f"Definition H_REJ_BODY_DEFAULT : Z := {zlit(rej_default)}.")
     L.append(f"Definition H_REJ_BODY_STATUS : Z := {zlit(rej_body_status)}.")
     L.append(f"Definition H_REJ_API_STATUS : Z := {zlit(rej_api_status)}.")
+    L.append("(* 3.: err.find::<warp::reject::K>() rows answered with a JSON error (status, code), in source order; anything else goes back to warp *)")
+    L.append("Definition H_REJ_WARP_ROWS : list (hwarpkind * (Z * Z)) := [" + "; ".join(f"({WARP_KINDS[k]}, ({zlit(st)}, {zlit(c)}))" for k, st, c in rej_warp_rows) + "].")
     L.append("")
     return "\n".join(L) + "\n"
